@@ -249,6 +249,7 @@ func buildL1(ctx sdk.Context, keys map[string]*storetypes.KVStoreKey, opts L1Opt
 // node's process restart does. Only what is in the stores survives.
 func (c *L1) Restart() {
 	n := buildL1(c.Ctx, c.Keys, c.opts, false)
+	n.Perm.FailIsTaken, n.Perm.IsTakenFailures = c.Perm.FailIsTaken, c.Perm.IsTakenFailures // an injected fault is the environment's, not the process's
 	c.Enc, c.AK, c.BK, c.K, c.Q, c.Router, c.Perm, c.Chan = n.Enc, n.AK, n.BK, n.K, n.Q, n.Router, n.Perm, n.Chan
 	ShadowStats.Restarts.Add(1)
 }
